@@ -28,6 +28,15 @@ STD_VARIANTS = {
 }
 
 
+# Option combinators taking a closure that are expanded in place: ck -> (closure argument index,
+# value when None: argument index or a constant term)
+OPT_HOF = {
+    "std::option::Option::map_or": (2, 1),
+    "std::option::Option::is_some_and": (1, ("const", "false", "bool")),
+    "std::option::Option::is_none_or": (1, ("const", "true", "bool")),
+}
+
+
 class BB(int):
     """a block index that remembers its body (events of inlined helpers carry blocks of the
     helper, not of the root): `ctx.where(root, ev.bb)` then reports the right source line"""
@@ -146,7 +155,16 @@ class PathEnum:
             while j < len(proj) and proj[j]["k"] == "deref":
                 j += 1
             if j < len(proj) and proj[j]["k"] == "field":
+                e1 = env.get(1)
+                if e1 is not None and e1[0] == "agg" and e1[1].startswith("closure:") and proj[j]["i"] < len(e1[2]):
+                    # inlined closure whose creation is in view: the captured value itself
+                    return self._apply(e1[2][proj[j]["i"]], self._proj_names(proj[j + 1:]))
                 return self._apply(("upvar", proj[j]["i"]), self._proj_names(proj[j + 1:]))
+        if proj and proj[0]["k"] == "deref":
+            L = self.prog.bp(self.body).ref_alias(l)
+            if L is not None:
+                l = L  # a read through a reference that can only point to L reads L as it is now
+                proj = proj[1:]
         base = env.get(l)
         if base is None:
             if 1 <= l <= self.body.arg_count:
@@ -291,7 +309,7 @@ class PathEnum:
             blk = body.blocks[bb]
             for i, s in enumerate(blk["stmts"]):
                 if s["k"] == "assign":
-                    p = s["place"]
+                    p = self.prog.bp(body).eff_place(s["place"])  # `*r = v` with r = &mut L only: L = v
                     rv = s["rv"]
                     val = self.rvalue(env, rv)
                     if not p["p"]:
@@ -391,6 +409,49 @@ class PathEnum:
                         ndsrc["__taken__"] = discr_src["__taken__"]
                     stack.append((0, cenv, {}, decisions, visits, path, ndsrc, fr))
                     continue
+                hof = OPT_HOF.get(site.ck)
+                if hof is not None and t.get("target") is not None and depth < self.max_depth and len(args) > hof[0] and not t["dest"]["p"]:
+                    clo = [st for st in subterms(args[hof[0]]) if st[0] == "agg" and st[1].startswith("closure:")]
+                    cb = self.prog.by_path.get(clo[0][1][8:]) if len(clo) == 1 else None
+                    if cb is not None and not any(f[6].path == cb.path for f in frames):
+                        # `opt.map_or(default, |x| ..)` and friends: None -> the default, Some(x) -> the
+                        # closure body, inlined, with x = (opt as Some).0
+                        key = ("discr", args[0])
+                        prev = None
+                        for dk, dv in decisions:
+                            if dk == key:
+                                prev = dv.lstrip("*")
+                        dl = t["dest"]["l"]
+                        if prev in (None, "None"):
+                            dflt = args[hof[1]] if isinstance(hof[1], int) else hof[1]
+                            p1 = Path()
+                            p1.blocks = list(path.blocks)
+                            p1.events = list(path.events)
+                            e1 = Event("call", bb, "term", t["loc"]["line"])
+                            e1.site, e1.ck, e1.args, e1.body, e1.depth, e1.chain = site, site.ck, args, body, depth, ev.chain
+                            e1.bb = BB(bb, body)
+                            e1.result = dflt
+                            p1.events.append(e1)
+                            env1 = dict(env)
+                            env1[dl] = dflt
+                            c1 = dict(consts)
+                            c1.pop(dl, None)
+                            if dflt[0] == "const" and len(dflt) > 2 and dflt[2] == "bool":
+                                c1[dl] = dflt[1] == "true"
+                            d1 = dict(discr_src)
+                            d1.pop(dl, None)
+                            stack.append((t["target"], env1, c1, decisions + ([(key, "None")] if prev is None else []), visits, p1, d1, frames))
+                        if prev in (None, "Some"):
+                            p2 = Path()
+                            p2.blocks = list(path.blocks)
+                            p2.events = list(path.events)
+                            ev.inlined = True
+                            ev.result = None
+                            p2.events.append(ev)
+                            cenv = {1: clo[0], 2: ("vfield", args[0], "Some", 0)}
+                            fr = frames + ((body, env, consts, discr_src, t["dest"], t["target"], cb, bb),)
+                            stack.append((0, cenv, {}, decisions + ([(key, "Some")] if prev is None else []), visits, p2, {}, fr))
+                        continue
                 res = self.call_result(site, args, v)
                 if site.ck == "std::boxed::box_assume_init_into_vec_unsafe" and args:
                     # vec![a, b]: Box::new_uninit -> array written through the box -> into_vec
